@@ -126,4 +126,22 @@ func (ps peerAddrs) PeerInfo(p peer.ID) peer.AddrInfo
   requires ps.lk != nil
   modifies nothing
   ensures result.ID == p
+
+# ---- one crawler RPC (C16) -----------------------------------------------------------
+# the request goes to the given peer under the per-RPC timeout, and the reply
+# returned is the message read from THAT stream; a failed read resets the stream
+func (ms *messageSender) SendRequest(ctx context.Context, p peer.ID, pmes *pb.Message) (*pb.Message, error)
+  props C16
+  ghostvar $rerr error = nil
+  ghostvar $read bool = false
+  ghostvar $reset bool = false
+  modifies *
+  ensures [reply-or-error] imp(result1 == nil, $read && $rerr == nil && result0 == msg) && imp(result1 != nil, result0 == nil)
+  ensures [failed-read-resets] imp($read && $rerr != nil, $reset && result1 != nil)
+  ghost at before call(WithTimeout): assert($arg1 == ms.timeout)
+  ghost at before call(NewStream): assert($arg0 == tctx && $arg1 == p)
+  ghost at before call(WriteMsg): assert($arg0 == pmes)
+  ghost at before call(ctxReadMsg): assert($arg0 == tctx && $arg1 == r && $arg2 == msg)
+  ghost at call(ctxReadMsg): $rerr = $ret0; $read = true
+  ghost at call(Reset): $reset = true
 @*/
